@@ -74,11 +74,14 @@ def build_jobs(rng, thorough):
         vals = {0: 'off', 1: 'on', 5: 'five', 100 if tid != 'BCD' else 99: 'big'}
         if tid == 'SCH':
             vals = {0: 'off', 1: 'on', 0xff: 'minus1', 0x7f: 'max'}
-        dv = ';'.join('%d=%s' % kv for kv in vals.items())
-        for fmt in (0, OF_NUMERIC, JS, OF_VALUENAME):
-            jobs.append(Job(tid, dv, fmt=fmt, sweep=(t.nbytes, 0, 1 << (8 * t.nbytes)) if t.nbytes == 1 else None,
-                            patterns=None if t.nbytes == 1 else [le(v, 2) for v in list(range(0, 300)) + [0xffff, 0xfffe, 0x8000]],
-                            meta={'kind': 'list', 'tid': tid, 'vals': vals}))
+        # second list: names that are prefixes / case variants of each other (lookup by name must be exact)
+        vals2 = {1: 'on', 2: 'on_demand', 3: 'ON', 4: 'o', 7: 'offline', 8: 'off', 9: 'Off', 10: 'on demand', 11: 'on_'}
+        for vl in (vals, vals2):
+            dv = ';'.join('%d=%s' % kv for kv in vl.items())
+            for fmt in (0, OF_NUMERIC, JS, OF_VALUENAME):
+                jobs.append(Job(tid, dv, fmt=fmt, sweep=(t.nbytes, 0, 1 << (8 * t.nbytes)) if t.nbytes == 1 else None,
+                                patterns=None if t.nbytes == 1 else [le(v, 2) for v in list(range(0, 300)) + [0xffff, 0xfffe, 0x8000]],
+                                meta={'kind': 'list', 'tid': tid, 'vals': vl}))
     # bit types
     for first, mx in RC.BIT_MAX.items():
         for n in range(1, mx + 1):
